@@ -29,9 +29,9 @@ META = {
                   "update, pull, switch and uncommit, with a content-multiset oracle"),
     "level_text": ("Proved for all flat working-tree states (any number of names, files / symlinks / directories holding "
                    "unversioned files, arbitrary basis, target tree, merge-hashes and selections): revert with backups keeps "
-                   "every user-edited FILE content in place, under <name>.~N~ or <name>.moved, EXCEPT for files absent from "
-                   "the basis but present in the target tree (refuted, confirmed on the real code: candidate finding); "
-                   "revert --no-backup still keeps user-edited added files; remove without --force keeps unknown and "
+                   "every user-edited FILE content in place, under <name>.~N~ or <name>.moved (no guard since the repair "
+                   "round: five defects found by this check were fixed in cd17d15, 86c5d42, b356f06); "
+                   "revert --no-backup still keeps user-edited added files; remove without --force keeps unversioned and "
                    "modified content (in place with --keep, else under a backup name); a merged path ends as the clean "
                    "three-way merge or with the local text in the file, <name>.THIS or <name>.moved; uncommit leaves the "
                    "files alone.  Symlink retargets are not preserved by revert (refuted witness, by design of the code)."),
@@ -340,7 +340,7 @@ CMDS = ["merge", "pull", "update", "switch"]
 
 def corpus():
     out = []
-    # the candidate finding: a file absent from the basis, present in the target tree, edited by the user
+    # regression (repaired cd17d15): a file absent from the basis, present in the target tree, edited by the user
     out.append({"kind": "revert", "names": [spec("a", None, F(b"one\n"), True, F(b"USER EDIT\n")),
                                             spec("b", F(b"g\n"))], "sel": ["a"], "backups": True})
     # refuted-by-design witnesses: a user-retargeted symlink; an (empty) user directory replaced by a file
@@ -349,7 +349,7 @@ def corpus():
     # directory with unknown files replaced by a file (kept as a.new/ by conflict resolution: oracle only)
     out.append({"kind": "revert", "names": [spec("a", F(b"one\n"), disk=D([["k1", b"INNER USER\n"]]))], "sel": None,
                 "backups": True})
-    # revert to an older tree of a regular file that replaced a versioned symlink: no backup (candidate finding)
+    # regression (repaired cd17d15): revert to an older tree of a regular file that replaced a versioned symlink
     out.append({"kind": "revert", "names": [spec("a", L("t1"), disk=F(b"USER FILE REPLACING LINK\n")),
                                             spec("b", F(b"y2\n"), F(b"y\n"))], "sel": None, "backups": True})
     # existing backups: the next free number is taken (two digits too)
@@ -375,8 +375,8 @@ def corpus():
           spec("b ", D(), disk=D([["k1", b"dunk\n"]]))]
     for keep, force in ((False, False), (False, True), (True, False), (True, True)):
         out.append({"kind": "remove", "names": st, "files": [e["n"] for e in st], "keep": keep, "force": force})
-    # the backup-name probe takes a URL: "%41.~1~" is looked up as "A.~1~" (candidate finding), and a non-ASCII
-    # name makes it raise InvalidURL (candidate finding)
+    # regressions (repaired b356f06): the backup-name probe took a path where a URL is expected: "%41.~1~" was
+    # looked up as "A.~1~", a non-ASCII name raised InvalidURL; (86c5d42) rm --keep f, edit, rm f
     out.append({"kind": "remove", "names": [spec("%41", F(b"one\n"), disk=F(b"EDIT 2\n")),
                                             spec("%41.~1~", None, None, False, F(b"PRECIOUS OLD BACKUP\n"))],
                 "files": ["%41"], "keep": False, "force": False})
@@ -385,6 +385,12 @@ def corpus():
                 "files": ["%41"], "keep": False, "force": False})
     out.append({"kind": "remove", "names": [spec("éx", F(b"one\n"), disk=F(b"EDIT 2\n")), spec("éy", F(b"z\n"))],
                 "files": ["éx", "éy"], "keep": False, "force": False})
+    out.append({"kind": "remove", "names": [spec("a", F(b"one\n"), wv=False, disk=F(b"EDITED AFTER rm --keep\n")),
+                                            spec("b", F(b"g\n"))],
+                "files": ["a"], "keep": False, "force": False})
+    out.append({"kind": "remove", "names": [spec("%41", F(b"one\n"), disk=D()),
+                                            spec("%41.~1~", F(b"three\n"))],
+                "files": ["%41"], "keep": False, "force": False})
     for cmd in CMDS:
         out.append(merge_case(cmd, [b"a\n", b"b\n", b"c\n"], [b"A\n", b"b\n", b"c\n"], [b"a\n", b"b\n", b"C\n"]))
         out.append(merge_case(cmd, [b"a\n", b"b\n", b"c\n"], [b"A\n", b"b\n", b"c\n"], None))
@@ -605,12 +611,8 @@ def _impl_tree(inp):
         err = "InvalidURL"
     after, lafter = _walk(root), _links(root)
     m = _obs_state(wt, inp)
-    if kind == "remove":
-        if err not in (None, "InvalidURL"):
-            if not _pct_class(inp):
-                raise AssertionError("remove raised " + err)
-            _cache[_key(inp)] = "skip"       # os.rename onto a name the unescaped probe called free
-        m = [err is not None, m]
+    if kind == "remove" and err is not None:
+        _cache[_key(inp)] = "skip"           # the oracle reports it; the model never raises
     if kind == "tt":
         e = inp["names"][0]
         wn = e["disk"]
@@ -839,8 +841,8 @@ def _lost_contents(inp, obs):
 
 
 def finding_class(inp):
-    """C12-revert-added-file-no-backup: revert with backups of a selected versioned FILE that is absent from the
-    basis, present (any kind) in the target tree, user-edited"""
+    """the class of the repaired finding C12-revert-added-file-no-backup (for the distribution only): revert with
+    backups of a selected versioned FILE that is absent from the basis, present in the target tree, user-edited"""
     if inp["kind"] not in ("revert", "tt") or not inp["backups"]:
         return []
     sel = inp.get("sel")
@@ -920,55 +922,8 @@ def oracle(inp, obs):
     return None
 
 
-def _pct_class(inp):
-    """remove without keep/force where a named, present path with '%' in its name is moved to a backup name"""
-    if inp["kind"] != "remove" or inp["keep"] or inp["force"]:
-        return False
-    return any("%" in e["n"] and e["n"] in inp["files"] and e["disk"] is not None for e in inp["names"])
-
-
 def finding_matches(fid, inp, obs, why):
-    if fid == "C12-remove-nonascii-invalidurl":
-        return bool(inp["kind"] == "remove" and not inp["keep"] and isinstance(obs, dict) and obs["err"] == "InvalidURL"
-                    and why and why.startswith("remove raised InvalidURL")
-                    and any(any(ord(ch) > 127 for ch in n) for n in inp["files"]))
-    if fid == "C12-remove-backup-probe-unescaped":
-        return bool(_pct_class(inp) and why and ("content lost" in why or
-                                                 (why.startswith("remove raised") and "InvalidURL" not in why)))
-    if fid == "C12-remove-unversioned-basis-path-deleted":
-        # rm --keep f (or brz remove --keep), then rm f: f is unversioned but its path is a path of the basis
-        if inp["kind"] != "remove" or inp["keep"] or inp["force"] or not why or "lost" not in why:
-            return False
-        cls = [e for e in inp["names"] if not e["wv"] and e["basis"] is not None and e["disk"] is not None
-               and e["n"] in inp["files"]]
-        bad = set(bytes(e["disk"][1]) for e in cls if e["disk"][0] == "f")
-        badl = set(e["disk"][1] for e in cls if e["disk"][0] == "l")
-        lost_l = _lost([e["disk"][1] for e in inp["names"] if e["disk"] is not None and e["disk"][0] == "l"
-                        and e["basis"] != e["disk"]], [t for _p, t in obs["lafter"]])
-        return bool(cls) and all(c in bad for c in _lost_contents(inp, obs)) and all(t in badl for t in lost_l)
-    if fid == "C12-revert-kindchange-sha-none":
-        if inp["kind"] != "revert" or not inp["backups"] or not why or "user-edited content lost" not in why:
-            return False
-        sel = inp.get("sel")
-        bad = set(bytes(e["disk"][1]) for e in inp["names"]
-                  if e["wv"] and e["basis"] is not None and e["basis"][0] != "f" and e["disk"] is not None
-                  and e["disk"][0] == "f" and (sel is None or e["n"] in sel))
-        bad |= set(bytes(e["disk"][1]) for e in inp["names"] if e["n"] in finding_class(inp))
-        return bool(bad) and all(c in bad for c in _lost_contents(inp, obs))
-    if fid == "C12-revert-added-file-no-backup":
-        ns = finding_class(inp)
-        if not ns or not why or "user-edited content lost" not in why:
-            return False
-        # every lost content must belong to a file of the class
-        bad = set(bytes(e["disk"][1]) for e in inp["names"] if e["n"] in ns)
-        after = [bytes(c) for _p, c in obs["after"]]
-        need = []
-        sel = inp.get("sel")
-        for e in inp["names"]:
-            need += _kid_contents(e)
-            if user_edited(e):
-                need.append(bytes(e["disk"][1]))
-        return all(c in bad for c in _lost(need, after))
+    # all five findings of the first round are repaired (status "fixed"): nothing is excused any more
     return False
 
 
@@ -994,7 +949,7 @@ def distribution(inputs, observations):
         if inp["kind"] in ("revert", "tt"):
             d["backups=%s" % inp["backups"]] = d.get("backups=%s" % inp["backups"], 0) + 1
             if finding_class(inp):
-                d["finding-class"] = d.get("finding-class", 0) + 1
+                d["added-file-with-target-entry (repaired class)"] = d.get("added-file-with-target-entry (repaired class)", 0) + 1
         if inp["kind"] == "remove":
             key = "keep=%s force=%s" % (inp["keep"], inp["force"])
             d[key] = d.get(key, 0) + 1
